@@ -523,8 +523,8 @@ struct Digit {
 
                     if (is_negative_exp) {
                         powerOfNegativeTen(number.Natural, exponent);
-                    } else {
-                        powerOfPositiveTen(number.Natural, exponent);
+                    } else if (!powerOfPositiveTen(number.Natural, exponent)) {
+                        return QNumberType::NotANumber; // Beyond the largest finite double.
                     }
                 } else if ((offset < end_offset) &&
                            ((content[offset] == DigitUtils::DigitChar::E) || (content[offset] == DigitUtils::DigitChar::UE))) {
@@ -636,7 +636,7 @@ struct Digit {
     }
     /////////////////////////////////////////
     template <typename Number_T>
-    static void powerOfPositiveTen(Number_T &number, SizeT32 exponent) noexcept {
+    static bool powerOfPositiveTen(Number_T &number, SizeT32 exponent) noexcept {
         using UNumber_T  = SystemIntType;
         using DigitConst = DigitUtils::DigitConst<sizeof(UNumber_T)>;
         //////////////////////////////////////////////////////////////
@@ -676,9 +676,15 @@ struct Digit {
         SizeT64 exp = DigitUtils::RealNumberInfo<double, 8U>::Bias; // double only
         exp += bit;
         exp += shifted;
+
+        if (exp > SizeT64{2046}) {
+            return false; // Overflow: 1.8e308 and above.
+        }
+
         exp <<= 52U;
         number &= 0xFFFFFFFFFFFFFULL;
         number |= exp;
+        return true;
     }
     /////////////////////////////////////////
     template <typename Char_T>
